@@ -9,7 +9,7 @@ import math
 
 from ..absint import AFormat, ALen, AList, AObj, APack, BV, Interp, Seg, SymList, Unknown
 from ..cfg import cfg_of
-from ..astutil import call_name, norm
+from ..astutil import call_name, norm, walk_no_nested
 from ..core import AnalysisError
 from ..tables import bitfields, namedtuple_fields
 
@@ -410,6 +410,11 @@ def run(repo, rep):
     from . import c18
 
     rep.run_borrowed(c18, {'C18-c': 'C17-h'}, repo)
+    rep.clause('C17-j', 'the command stream tensor of every subgraph keeps its data until the file is written: the writer\'s buffer list accumulates over all subgraphs [rule shared with C11-i]')
+    from . import c11 as _c11
+
+    rep.run_borrowed(_c11, {'C11-i': 'C17-j'}, repo, only_sites=('assign_buffers_to_tensors',))
+    rule_custom_op_operand_readers(repo, rep)
 
 
 def _is_u65(p):
@@ -417,3 +422,37 @@ def _is_u65(p):
         if "is_ethos_u65_system" in t:
             return d
     return False
+
+
+def rule_custom_op_operand_readers(repo, rep):
+    """(k) readers of the ethos-u custom operator's fixed operands follow the order in which rewrite_npu_call_ops puts them (checked under C12-f:
+    command stream, flash, scratch, fast scratch): an unpacking of `<op>.inputs[:4]` names its four targets in that order, so that what is
+    saved as the command stream is the driver payload."""
+    rep.clause("C17-k", "readers of the custom operator's first four operands unpack them as (command stream, weights / flash, scratch, fast scratch): the payload written to the raw output is the command stream tensor")
+    n = 0
+    for m in repo.core_modules():
+        for q, fn in m.functions.items():
+            if "." in q and q.split(".")[0] in m.functions:
+                continue
+            for st in walk_no_nested(fn):
+                if isinstance(st, ast.Assign) and isinstance(st.targets[0], ast.Tuple) and len(st.targets[0].elts) == 4 and isinstance(st.value, ast.Subscript) and str(norm(st.value)).endswith(".inputs[:4]"):
+                    n += 1
+                    names = [e.id.lower() if isinstance(e, ast.Name) else "" for e in st.targets[0].elts]
+
+                    def kind(nm):
+                        if "cmd" in nm or "command" in nm:
+                            return "command stream"
+                        if "fast" in nm:
+                            return "fast scratch"
+                        if "scratch" in nm:
+                            return "scratch"
+                        if "weight" in nm or "flash" in nm or "const" in nm:
+                            return "flash"
+                        return "?"
+
+                    got = [kind(x) for x in names]
+                    rep.check(got == ["command stream", "flash", "scratch", "fast scratch"], "C17-k", f"{m.rel}:{q}", f"`{str(norm(st))[:90]}` names the operands in the driver's order",
+                              f"targets denote {got}: the array saved as the command stream is another operand of the custom operator and the driver payload is not in the output")
+    if n < 1:
+        raise AnalysisError("no unpacking of <op>.inputs[:4] found (expected rawdata_writer)")
+    rep.floor("C17-k", 1)
